@@ -143,10 +143,11 @@ def extract():
             types.setdefault(nm.strip(), re.sub(r"\s+", " ", ty))
     width = {"utf16": 65536, "gid16": 65536, "unsigned short": 65536, "unsigned int": 4294967296}
     loops = []
-    for m in re.finditer(r"for\s*\(\s*(\w+)\s*=\s*([\w.]+)\s*;\s*(\w+)\s*<=\s*([\w.]+)\s*;\s*(?:\+\+\s*(\w+)|(\w+)\s*\+\+)\s*\)", fn):
+    for m in re.finditer(r"for\s*\(\s*(\w+)\s*=\s*([\w.]+)\s*;\s*(\w+)\s*<=\s*([\w.]+)\s*(?:&&\s*(\w+)\s*<=\s*(0[xX][0-9a-fA-F]+|\d+)\s*)?;\s*(?:\+\+\s*(\w+)|(\w+)\s*\+\+)\s*\)", fn):
         c = m.group(1)
-        if m.group(3) != c or (m.group(5) or m.group(6)) != c:
+        if m.group(3) != c or (m.group(7) or m.group(8)) != c or (m.group(5) and m.group(5) != c):
             raise ExtractError("range loop with mixed counters: %r" % m.group(0))
+        const_bound = int(m.group(6), 0) if m.group(6) else None
         ty = types.get(c)
         if ty not in width:
             raise ExtractError("range loop counter %s has unrecognised type %r" % (c, ty))
@@ -158,9 +159,14 @@ def extract():
             inner = re.sub(r"\{[^{}]*\}", "", body[1:-1])   # strip one level of nested blocks
             inner = re.sub(r"\{[^{}]*\}", "", inner)
             guarded = bool(re.search(r"if\s*\(\s*%s\s*==\s*\w+\s*\)\s*break\s*;" % c, inner))
+        if const_bound is not None and const_bound < M - 1:
+            guarded = True          # the counter stops at a constant below its largest value: it cannot wrap
         loops.append(("%s..%s" % (m.group(2), m.group(4)), M, guarded))
     if not loops:
         raise ExtractError("AssignGlyphIDsToClassMember: no inclusive range loop found")
+    n_incl = len(re.findall(r"for\s*\([^;]*;[^;]*<=[^;]*;", fn))
+    if n_incl != len(loops):
+        raise ExtractError("AssignGlyphIDsToClassMember: %d loops with an inclusive bound, %d recognised" % (n_incl, len(loops)))
 
     gcd = strip_comments(open(os.path.join(REPO, "compiler", "GdlGlyphClassDefn.cpp"), encoding="latin-1").read())
     hd = function_body(gcd, r"bool\s+GdlGlyphClassDefn::HasDuplicateGlyphs\s*\(")
